@@ -174,6 +174,79 @@ Definition diverged : Z := -1.
 Definition hook_err (r : result) : err :=
   match r with Ret _ _ => [] | Pan p => recovered p end.
 
+(* the retry / skip loops, over an arbitrary runner of the wrapped function *)
+Definition runner := st -> world -> result * st * world.
+
+(* Worker.Retry:  for i := 0; i < n; i++ { attemptErr := wf(ctx); switch {
+     case attemptErr == nil: return nil
+     case ers.IsExpiredContext(attemptErr): return ers.Join(attemptErr, err)
+     case errors.Is(attemptErr, ErrIteratorSkip): continue
+     case ers.IsTerminating(attemptErr): return nil
+     default: err = ers.Join(attemptErr, err) } }; return err *)
+Fixpoint retryW_loop (rf : runner) (i : nat) (acc : err) (s : st) (w : world) : result * st * world :=
+  match i with
+  | O => (Ret 0 acc, SOne s, w)
+  | S i' =>
+      match rf s w with
+      | (Pan p, s', w') => (Pan p, SOne s', w')
+      | (Ret _ e, s', w') =>
+          if is_nil e then (Ret 0 [], SOne s', w')
+          else if is_expired e then (Ret 0 (join e acc), SOne s', w')
+          else if is_skip e then retryW_loop rf i' acc s' w'
+          else if is_terminating e then (Ret 0 [], SOne s', w')
+          else retryW_loop rf i' (join e acc) s' w'
+      end
+  end.
+
+(* Producer.Retry:  for i := 0; i < n; i++ { value, attemptErr := pf(ctx); switch {
+     case attemptErr == nil: return value, nil
+     case ers.IsTerminating(attemptErr): return zero, ers.Join(attemptErr, err)
+     case errors.Is(attemptErr, ErrIteratorSkip): continue
+     default: err = ers.Join(attemptErr, err) } }; return zero, err *)
+Fixpoint retryP_loop (rf : runner) (i : nat) (acc : err) (s : st) (w : world) : result * st * world :=
+  match i with
+  | O => (Ret 0 acc, SOne s, w)
+  | S i' =>
+      match rf s w with
+      | (Pan p, s', w') => (Pan p, SOne s', w')
+      | (Ret v e, s', w') =>
+          if is_nil e then (Ret v [], SOne s', w')
+          else if is_terminating e then (Ret 0 (join e acc), SOne s', w')
+          else if is_skip e then retryP_loop rf i' acc s' w'
+          else retryP_loop rf i' (join e acc) s' w'
+      end
+  end.
+
+(* Producer.Join, stage runSecondFunc: RETRY_SECOND loop *)
+Fixpoint joinP_second (rg : runner) (fuel : nat) (fe se : err) (s1 s2 : st) (w : world) : result * st * world :=
+  match fuel with
+  | O => (Pan diverged, SJoinP 2 fe se s1 s2, w)
+  | S fuel' =>
+      match rg s2 w with
+      | (Pan p, s2', w') => (Pan p, SJoinP 2 fe se s1 s2', w')
+      | (Ret v e, s2', w') =>
+          if is_nil e then (Ret v [], SJoinP 2 fe se s1 s2', w')
+          else if is_skip e then joinP_second rg fuel' fe se s1 s2' w'
+          else if negb (is_eof e) then (Ret 0 e, SJoinP 3 fe e s1 s2', w')
+          else (Ret 0 e, SJoinP 4 fe se s1 s2', w')
+      end
+  end.
+
+(* Producer.Join, stage runFirstFunc: RETRY loop, falling through to the second stage on io.EOF *)
+Fixpoint joinP_first (rf rg : runner) (fuel : nat) (fe se : err) (s1 s2 : st) (w : world) : result * st * world :=
+  match fuel with
+  | O => (Pan diverged, SJoinP 0 fe se s1 s2, w)
+  | S fuel' =>
+      match rf s1 w with
+      | (Pan p, s1', w') => (Pan p, SJoinP 0 fe se s1' s2, w')
+      | (Ret v e, s1', w') =>
+          if is_nil e then (Ret v [], SJoinP 0 fe se s1' s2, w')
+          else if is_skip e then joinP_first rf rg fuel' fe se s1' s2 w'
+          else if negb (is_eof e) then (Ret 0 e, SJoinP 1 e se s1' s2, w')
+          else joinP_second rg join_fuel fe se s1' s2 w'
+      end
+  end.
+
 Fixpoint run (f : fn) (s : st) (w : world) {struct f} : result * st * world :=
   match f, s with
   (* ---- the scripted function: log the execution, consume one outcome *)
@@ -215,40 +288,8 @@ Fixpoint run (f : fn) (s : st) (w : world) {struct f} : result * st * world :=
            | (Pan p, s', w') => (Pan p, SCnt (cnt + 1) s', w')
            end
 
-  (* ---- Worker.Retry *)
-  | FRetryW n f, SOne s =>
-      let fix loop (i : nat) (acc : err) (s : st) (w : world) : result * st * world :=
-        match i with
-        | O => (Ret 0 acc, SOne s, w)
-        | S i' =>
-            match run f s w with
-            | (Pan p, s', w') => (Pan p, SOne s', w')
-            | (Ret _ e, s', w') =>
-                if is_nil e then (Ret 0 [], SOne s', w')
-                else if is_expired e then (Ret 0 (join e acc), SOne s', w')
-                else if is_skip e then loop i' acc s' w'
-                else if is_terminating e then (Ret 0 [], SOne s', w')
-                else loop i' (join e acc) s' w'
-            end
-        end in
-      loop (Z.to_nat n) [] s w
-
-  (* ---- Producer.Retry *)
-  | FRetryP n f, SOne s =>
-      let fix loop (i : nat) (acc : err) (s : st) (w : world) : result * st * world :=
-        match i with
-        | O => (Ret 0 acc, SOne s, w)
-        | S i' =>
-            match run f s w with
-            | (Pan p, s', w') => (Pan p, SOne s', w')
-            | (Ret v e, s', w') =>
-                if is_nil e then (Ret v [], SOne s', w')
-                else if is_terminating e then (Ret 0 (join e acc), SOne s', w')
-                else if is_skip e then loop i' acc s' w'
-                else loop i' (join e acc) s' w'
-            end
-        end in
-      loop (Z.to_nat n) [] s w
+  | FRetryW n f, SOne s => retryW_loop (run f) (Z.to_nat n) [] s w
+  | FRetryP n f, SOne s => retryP_loop (run f) (Z.to_nat n) [] s w
 
   (* ---- mtx.Lock(); defer mtx.Unlock(); return f(ctx)        sequentially: the identity *)
   | FLock f, SOne s =>
@@ -312,38 +353,10 @@ Fixpoint run (f : fn) (s : st) (w : world) {struct f} : result * st * world :=
 
   (* ---- Producer.Join: stages 0 runFirst, 1 firstErrored, 2 runSecond, 3 secondErrored, 4 eof *)
   | FJoinP f g, SJoinP stage fe se s1 s2 =>
-      let second :=
-        fix second (fuel : nat) (fe : err) (s1 s2 : st) (w : world) : result * st * world :=
-          match fuel with
-          | O => (Pan diverged, SJoinP 2 fe se s1 s2, w)
-          | S fuel' =>
-              match run g s2 w with
-              | (Pan p, s2', w') => (Pan p, SJoinP 2 fe se s1 s2', w')
-              | (Ret v e, s2', w') =>
-                  if is_nil e then (Ret v [], SJoinP 2 fe se s1 s2', w')
-                  else if is_skip e then second fuel' fe s1 s2' w'
-                  else if negb (is_eof e) then (Ret 0 e, SJoinP 3 fe e s1 s2', w')
-                  else (Ret 0 e, SJoinP 4 fe se s1 s2', w')
-              end
-          end in
-      let first :=
-        fix first (fuel : nat) (s1 : st) (w : world) : result * st * world :=
-          match fuel with
-          | O => (Pan diverged, SJoinP 0 fe se s1 s2, w)
-          | S fuel' =>
-              match run f s1 w with
-              | (Pan p, s1', w') => (Pan p, SJoinP 0 fe se s1' s2, w')
-              | (Ret v e, s1', w') =>
-                  if is_nil e then (Ret v [], SJoinP 0 fe se s1' s2, w')
-                  else if is_skip e then first fuel' s1' w'
-                  else if negb (is_eof e) then (Ret 0 e, SJoinP 1 e se s1' s2, w')
-                  else second join_fuel fe s1' s2 w'
-              end
-          end in
       if stage =? 3 then (Ret 0 se, s, w)
       else if stage =? 1 then (Ret 0 fe, s, w)
-      else if stage =? 0 then first join_fuel s1 w
-      else if stage =? 2 then second join_fuel fe s1 s2 w
+      else if stage =? 0 then joinP_first (run f) (run g) join_fuel fe se s1 s2 w
+      else if stage =? 2 then joinP_second (run g) join_fuel fe se s1 s2 w
       else (Ret 0 [LEOF], s, w)
 
   (* ---- Worker.PreHook: ers.Join(ers.WithRecoverCall(func() { op(ctx) }), wf(ctx))   (arguments left to right)
